@@ -10,6 +10,11 @@ class HostError(Exception):
     """Raised by host probes; must propagate through the evaluator unchanged."""
 
 
+class HostStop(StopIteration):
+    """A host function that is backed by an iterator and has run dry: an ordinary exception of host code (it happens to
+    be the one Python's iteration protocol uses as its end marker)."""
+
+
 class Host:
     """Scripted host functions bound in `names` (mirror of Model.call_host)."""
 
@@ -125,6 +130,8 @@ class Host:
                     cur.effects.append((cur.nodes, 'probe:t', str(i)))
                 if host.probe_faults.get(host.probe_calls) == 'raise':
                     raise HostError('probe %s' % (i,))
+                if host.probe_faults.get(host.probe_calls) == 'stop':
+                    raise HostStop('probe %s' % (i,))
                 return args[1] if len(args) > 1 else i
 
             def boom(*args):
@@ -183,7 +190,7 @@ class RecDict(dict):
 
 def classify(exc):
     from smartquery.exceptions import ParserError
-    if isinstance(exc, HostError):
+    if isinstance(exc, (HostError, HostStop)):
         return 'host'
     if isinstance(exc, ParserError):
         return 'lang'
